@@ -299,26 +299,34 @@ def _counts(r, rep):
             r.fail("C14.counts", K + ":total-stale", "the violation list changes after it was counted", rep.loc(later[0]))
         else:
             r.ok("C14.counts", K + ":total", "len(dRunInfo['violations']) taken after the list is final")
-    # severity counters
-    incs = []
+    # severity counters: either inline on dRunInfo['severities'] over dRunInfo['violations'], or in a helper that is handed
+    # the printed list and whose result is stored as dRunInfo['severities']
+    cfi, D, domain = rep, "dRunInfo['severities']", "dRunInfo['violations']"
     for n in walk_function(rep.node):
-        if isinstance(n, ast.Assign) and isinstance(n.targets[0], ast.Subscript) and norm(n.targets[0].value) == "dRunInfo['severities']":
+        if isinstance(n, ast.Assign) and norm(n.targets[0]) == "dRunInfo['severities']" and isinstance(n.value, ast.Call) and len(n.value.args) == 1 and norm(n.value.args[0]) == "dRunInfo['violations']" and isinstance(n.value.func, ast.Attribute) and norm(n.value.func.value) == "self":
+            h = rep.cls.find_method(n.value.func.attr) if rep.cls is not None else None
+            rets = [x for x in walk_function(h.node) if isinstance(x, ast.Return)] if h is not None else []
+            if h is not None and len(rets) == 1 and isinstance(rets[0].value, ast.Name) and len(h.params) == 2:
+                cfi, D, domain = h, rets[0].value.id, h.params[1]
+    incs = []
+    for n in walk_function(cfi.node):
+        if isinstance(n, ast.Assign) and isinstance(n.targets[0], ast.Subscript) and norm(n.targets[0].value) == D:
             incs.append(n)
     inc = [n for n in incs if not (isinstance(n.value, ast.Constant) and n.value.value == 0)]
     zero = [n for n in incs if isinstance(n.value, ast.Constant) and n.value.value == 0]
     if not zero:
-        r.fail("C14.counts", K + ":severity-init", "severity counters are not initialised to 0", rep.loc())
+        r.fail("C14.counts", K + ":severity-init", "severity counters are not initialised to 0", cfi.loc())
     if len(inc) != 1:
-        r.fail("C14.counts", K + ":severity-inc", "expected one severity counter increment, found %d" % len(inc), rep.loc())
+        r.fail("C14.counts", K + ":severity-inc", "expected one severity counter increment, found %d" % len(inc), cfi.loc())
         return
     n = inc[0]
-    loop = [x for x in _parents(n, rep.node) if isinstance(x, ast.For)]
+    loop = [x for x in _parents(n, cfi.node) if isinstance(x, ast.For)]
     keyt = norm(n.targets[0].slice)
-    want_val = "dRunInfo['severities'][%s] + 1" % keyt
-    ok = loop and norm(loop[0].iter) == "dRunInfo['violations']" and norm(n.value) == want_val
-    guards = [x for x in _parents(n, rep.node) if isinstance(x, ast.If)]
+    want_val = "%s[%s] + 1" % (D, keyt)
+    ok = loop and norm(loop[0].iter) == domain and norm(n.value) in (want_val, "1 + %s[%s]" % (D, keyt))
+    guards = [x for x in _parents(n, cfi.node) if isinstance(x, ast.If)]
     if not ok or guards:
-        r.fail("C14.counts", K + ":severity-inc", "severity counter `%s = %s` is not +1 per entry of the printed list" % (norm(n.targets[0]), norm(n.value)), rep.loc(n))
+        r.fail("C14.counts", K + ":severity-inc", "severity counter `%s = %s` is not +1 per entry of the printed list" % (norm(n.targets[0]), norm(n.value)), cfi.loc(n))
         return
     # key derived from the entry's severity name
     v = loop[0].target.id
@@ -329,7 +337,7 @@ def _counts(r, rep):
     if src == "%s['severity']['name']" % v or keyt == "%s['severity']['name']" % v:
         r.ok("C14.counts", K + ":severity-inc", "+1 per printed entry keyed by its severity name")
     else:
-        r.fail("C14.counts", K + ":severity-key", "severity counter keyed by %s, not by the entry's severity name" % (src or keyt), rep.loc(n))
+        r.fail("C14.counts", K + ":severity-key", "severity counter keyed by %s, not by the entry's severity name" % (src or keyt), cfi.loc(n))
 
 
 def _exit(r, p, cg):
